@@ -8,7 +8,7 @@
      smono st st'        st' is st with some locks removed                     (ProofsStore)
      covered pieces k    some piece contains k                                 (ProofsDel) *)
 From Verif Require Import Base.Lex RangeTask.Model RangeTask.ProofsOrd RangeTask.ProofsStore RangeTask.ProofsPart
-  RangeTask.ProofsInv RangeTask.ProofsScan RangeTask.ProofsGc RangeTask.ProofsOut RangeTask.ProofsDel RangeTask.ProofsTerm RangeTask.ProofsAsync.
+  RangeTask.ProofsInv RangeTask.ProofsScan RangeTask.ProofsGc RangeTask.ProofsOut RangeTask.ProofsDel RangeTask.ProofsTerm RangeTask.ProofsAsync RangeTask.ProofsVis.
 Open Scope N_scope.
 
 (* ---- range task: for every range (unbounded end included) and every sequence of layouts, the sub-ranges
@@ -142,7 +142,30 @@ Proof.
 Qed.
 Print Assumptions C14_visibility.
 
+(* the same over ANY schedule of safe-point updates interleaved with the sends and the post-response checks of one
+   read (Get: one check after its response; BatchGet: one check after the last response; Scan / reverse Scan: one
+   check after every batch): a response that arrives while the cached safe point is above the read ts refuses the
+   read -- exactly at the first such response, the earlier batches having been served -- and otherwise all is served *)
+Theorem C14_visibility_schedule : forall ts cached,
+  (forall evs pre post, evs = pre ++ VCheck :: post -> ts < cached_after cached pre -> fst (run_read cached ts evs) = VisAbortedByGC) /\
+  (forall pre post, ts < cached_after cached pre ->
+     (forall pre1 post1, pre = pre1 ++ VCheck :: post1 -> cached_after cached pre1 <= ts) ->
+     run_read cached ts (pre ++ VCheck :: post) = (VisAbortedByGC, count_checks pre)) /\
+  (forall evs, (forall pre post, evs = pre ++ VCheck :: post -> cached_after cached pre <= ts) ->
+     run_read cached ts evs = (VisOk, count_checks evs)).
+Proof.
+  intros ts cached. split; [|split].
+  - intros evs pre post. apply run_read_refused.
+  - intros pre post. apply run_read_first.
+  - intros evs. apply run_read_served.
+Qed.
+Print Assumptions C14_visibility_schedule.
+
 (* ---- non-vacuity *)
+Example ex_vis_schedule :   (* safe point learned while the 2nd scan batch is in flight: batch 1 served, batch 2 refused *)
+  run_read 5 10 [VSend; VCheck; VSend; VUpdate 11; VCheck; VSend; VCheck] = (VisAbortedByGC, 1%nat) /\
+  run_read 5 10 [VUpdate 11; VSend; VUpdate 10; VCheck] = (VisOk, 1%nat).
+Proof. vm_compute. auto. Qed.
 Definition ex_k (n : N) : list N := [n].
 Definition ex_store : store :=
   [ mkRec (ex_k 1) (Some (mkLock 10 (ex_k 1) LPut [7])) [];                                   (* pending primary *)
